@@ -58,6 +58,10 @@ pub mod async_net {
         open spec fn deep(&self) -> Seq<u8> { self.end() }
         #[verifier::prophetic]
         open spec fn end_deep(&self) -> Seq<u8> { self.end() }
+        #[verifier::prophetic]
+        open spec fn fr(&self) -> Fr { Fr::Nil }
+        #[verifier::prophetic]
+        open spec fn end_fr(&self) -> Fr { Fr::Nil }
         #[verifier::external_body]
         proof fn resolved(&self) {}
         #[verifier::external_body]
